@@ -23,6 +23,9 @@ func (p *pktSubAck) Parse(flag byte, contents []byte) (*pktSubAck, error) {
 	if flag != 0 {
 		return nil, wrapError(ErrInvalidPacket, "parsing SUBSCK")
 	}
+	if len(contents) < 2 {
+		return nil, wrapError(ErrInvalidPacketLength, "parsing SUBACK")
+	}
 	p.ID = uint16(contents[0])<<8 | uint16(contents[1])
 	for _, c := range contents[2:] {
 		p.Codes = append(p.Codes, subscribeFlag(c))
